@@ -81,6 +81,13 @@ OPTIONS_AFFECTING_CACHE: Final = (
         "untyped_calls_exclude",
         "enable_incomplete_feature",
         "install_types",
+        # These change which diagnostics are produced or how cached ones were recorded,
+        # so results cached under a different value must not be replayed.
+        "allow_empty_bodies",
+        "show_absolute_path",
+        "show_error_code_links",
+        "show_error_context",
+        "warn_redundant_casts",
     }
 ) - {"debug_cache"}
 
